@@ -208,3 +208,45 @@ def r15c(model: Model, rr: RuleResult):
         rr.ok("var(--colorN, c): N becomes palette_index of the fallback colour c")
     else:
         rr.bad(fs, fs.node, "var(--colorN, c) no longer records N as the palette index", construct="Color.fromstring: var(--colorN)")
+
+
+@RULES.rule("C15", "R15d", "Color.opaque() changes alpha only (palette index and RGB are kept)", floor=1)
+def r15d(model: Model, rr: RuleResult):
+    fi = model.func("colors", "Color.opaque")
+    cls_fields = [f for f, _, _ in model.mod("colors").cls("Color").fields]
+    rets = [st for st in walk_body(fi) if isinstance(st, ast.Return) and st.value is not None]
+    if not rets:
+        raise AnalysisError("Color.opaque: no return")
+    for st in rets:
+        v = st.value
+        if isinstance(v, ast.Name) and v.id == "self":
+            cfg = cfg_of(fi)
+            facts = [(norm(e), pol) for e, pol in guard_facts(cfg, cfg.node_for(st))]
+            if any(pol and t.replace(" ", "") in ("self.alpha==1.0", "1.0==self.alpha", "self.alpha==1", "self.alpha>=1.0") for t, pol in facts):
+                rr.ok("opaque(): returns self when alpha is already 1.0")
+            else:
+                rr.bad(fi, st, "opaque() returns self without establishing alpha == 1.0", construct=short(st))
+        elif isinstance(v, ast.Call) and callee_tail(v) in ("_replace", "replace") and ("self" in norm(v.func) or (v.args and norm(v.args[0]) == "self")):
+            kws = {k.arg: norm(k.value) for k in v.keywords}
+            if set(kws) == {"alpha"} and kws["alpha"] in ("1.0", "1"):
+                rr.ok("opaque() = self with alpha replaced by 1.0 (every other field, incl. palette_index, kept)")
+            else:
+                rr.bad(fi, st, f"opaque() replaces {sorted(kws)}: only alpha may change (a lost palette_index moves the colour to another CPAL slot)", construct=short(st))
+        elif isinstance(v, ast.Call) and norm(v.func) in ("Color", "cls", "type(self)", "self.__class__"):
+            given = {}
+            for i, a in enumerate(v.args):
+                if i < len(cls_fields):
+                    given[cls_fields[i]] = norm(a)
+            for k in v.keywords:
+                given[k.arg] = norm(k.value)
+            miss = [f for f in cls_fields if f != "alpha" and given.get(f) != f"self.{f}"]
+            if miss:
+                rr.bad(fi, st, f"opaque() rebuilds the colour without carrying over {miss}: a translucent var(--colorN, c) loses its declared palette index N",
+                       construct=f"{short(st)} drops {miss}")
+            else:
+                rr.ok("opaque() rebuilds the colour with every field but alpha carried over")
+        else:
+            raise AnalysisError(f"Color.opaque: return {short(v)} outside the enumerated idioms")
+    wp = model.func("colors", "Color.without_palette_index")
+    if any("_replace(palette_index=None)" in norm(st) for st in walk_body(wp)):
+        rr.ok("without_palette_index() is the only method that drops the index")
